@@ -30,7 +30,8 @@ func rmJournalHeaderOK(c []byte, length int64) bool {
 	return verifAnd(verifAnd(diff == 0, verifAnd(sectorOK, pageOK)), length >= int64(sector))
 }
 
-//verif:bounds journal absent | present with any first 28 bytes and any length 0..200000; RESERVED lock held or not
+//verif:prop C09,C05
+//verif:bounds journal absent | present with any first 28 bytes and any length 0..200000; RESERVED lock held or not (C05: the journal is hostile input too - no panic, no unbounded allocation)
 func VH_C09_decision() {
 	mode := verifChoice(2) // 0 present, 1 absent
 	content := verifBytes(28)
